@@ -234,7 +234,9 @@ impl Series1 {
                     crossings.push(x1);
                     continue;
                 }
-                let x = x0 + (y_equals - v0) / m;
+                // Rounding can carry the result an ulp past the end of the segment (and so outside
+                // the domain when it is the first or last one)
+                let x = (x0 + (y_equals - v0) / m).max(x0).min(x1);
                 crossings.push(x);
             }
         }
